@@ -374,7 +374,7 @@ func (r *Run) Finish() {
 			os.WriteFile(p, append(b, '\n'), 0o644)
 			fmt.Printf("violation: %s: %s (x%d)\n", v.Sig, v.What, v.Count)
 			fmt.Printf("VIOLATION property=%s replay=%s\n", r.ID, p)
-			if i >= 19 {
+			if i >= 19 && os.Getenv("VERIF_ALL_VIOLATIONS") == "" {
 				fmt.Printf("(%d more violation signatures not listed)\n", len(sigs)-i-1)
 				break
 			}
